@@ -303,4 +303,37 @@ def runSched (rc : Bool) : List Tid → (Tid → List Tok) → G → List (Optio
       | none => none :: runSched rc sch progs g
       | some g' => some g'.obs :: runSched rc sch (fun u => if u = t then rest else progs u) g'
 
+/-! ### shapes of the T1 facts (filled in by extract/threadcfg.c + extract/apiscan.py → Generated/ThreadCfg.lean) -/
+
+/-- one `COAP_API` function as seen by the static scan -/
+structure ApiSite where
+  file : String
+  name : String
+  locks : Bool       -- takes global_lock with coap_lock_lock() (whose failure branch returns)
+  callsLkd : Bool    -- calls library code (`…_lkd` workers) only while locked, and calls at least one
+  unlocks : Bool     -- every path from the lock to a `return` / the end of the function passes coap_lock_unlock()
+  deriving DecidableEq, Repr
+
+def ApiSite.bracketed (s : ApiSite) : Bool := s.locks && s.callsLkd && s.unlocks
+
+/-- one invocation of an application-supplied function pointer in a compiled source file -/
+structure CbSite where
+  file : String
+  func : String      -- enclosing function
+  callee : String    -- the call expression
+  wrapped : Bool     -- it is (inside) the `func` argument of a coap_lock_callback* macro
+  deriving DecidableEq, Repr
+
+/-- one build configuration (as configured by the build system from the current tree) -/
+structure BuildCfg where
+  name : String
+  define : String            -- replacement text of the macro COAP_THREAD_SAFE in the generated header ("" = undefined)
+  ifHolds : Bool             -- `#if COAP_THREAD_SAFE` is taken
+  lockLinked : Bool          -- the library contains coap_lock_lock_func and coap_startup() initialises global_lock
+  advertised : Bool          -- coap_threadsafe_is_supported() != 0
+  recursiveCheck : Bool      -- `#if COAP_THREAD_RECURSIVE_CHECK`
+  deriving DecidableEq, Repr
+
+def BuildCfg.compiledIn (c : BuildCfg) : Bool := c.ifHolds && c.lockLinked
+
 end Coap.Lock
